@@ -7,6 +7,8 @@ macro_rules! h {
         #[kani::proof]
         #[kani::unwind(150)]
         #[kani::stub(paseto_core::pae::pre_auth_encode, crate::l2::pae_model)]
+        #[kani::stub(<*mut u8>::is_null, crate::l2::is_null_mut)]
+        #[kani::stub(<*const u8>::is_null, crate::l2::is_null_const)]
         fn $name() {
             setup();
             $body
@@ -51,6 +53,7 @@ macro_rules! instantiate_public {
     (V = $v:ty, SIG = $sig:expr, A = $a:expr) => {
         $crate::h!(public_roundtrip_m0_f0_a0, public_roundtrip::<$v>(0, 0, 0, $sig));
         $crate::h!(public_roundtrip_m3_f2, public_roundtrip::<$v>(3, 2, $a, $sig));
+        $crate::h!(public_seal_total_m3_f2, public_seal_total::<$v>(3, 2, $a));
         $crate::h!(public_tamper_payload_bit_m2, public_tamper_payload_bit::<$v>(2, 1, 0));
         $crate::classes!(public_tamper_class, $v,
             public_tamper_w0_footer_bit = 0, public_tamper_w2_footer_grow = 2, public_tamper_w3_footer_shrink = 3,
@@ -160,7 +163,9 @@ macro_rules! instantiate_keys {
         $crate::h!(c08_local_key_codec_n31, local_key_codec::<$v, 31>());
         $crate::h!(c08_local_key_codec_n33, local_key_codec::<$v, 33>());
         $crate::h!(c08_local_key_codec_n64, local_key_codec::<$v, 64>());
-        $crate::h!(c08_signing_key_codec, signing_key_codec::<$v>($pl, $sl, $pis));
+        $crate::h!(c08_signing_key_codec_public, signing_key_codec::<$v, 0>($pl, $sl, $pis));
+        $crate::h!(c08_signing_key_codec_secret, signing_key_codec::<$v, 1>($pl, $sl, $pis));
+        $crate::h!(c08_signing_key_codec_rederive, signing_key_codec::<$v, 2>($pl, $sl, $pis));
         $crate::h!(c08_asym_wrong_len_short, asym_key_wrong_len::<$v, { $pl - 1 }>($pls, &[$sl]));
         $crate::h!(c08_asym_wrong_len_long, asym_key_wrong_len::<$v, { $sl + 1 }>($pls, &[$sl]));
         $crate::h!(c08_asym_wrong_len_33, asym_key_wrong_len::<$v, 33>($pls, &[$sl]));
